@@ -29,7 +29,9 @@ def fmt(v):
     return str(v)
 for k,lab in (('state','State'),('mechanism','Mechanisms'),('observe_at','Observable at')):
     if anch.get(k): lines.append(f"{lab}: "+"; ".join(fmt(x) for x in anch[k]))
-if FOCUS:
+if FOCUS=="-":
+    lines+=["", "For this run prefer a change in a helper, a boundary case or an error path of the anchored code that is NOT the first thing one would think of for this property (another run covers the obvious one)."]
+elif FOCUS:
     hit=[fmt(x) for x in anch.get('mechanism',[]) if FOCUS.lower() in fmt(x).lower()]
     if not hit: sys.exit("focus matches no mechanism of "+ID)
     lines+=["", "For this run concentrate on this mechanism of the property (another run covers the others): "+hit[0]]
